@@ -80,20 +80,94 @@ func genHistory(rng *lib.Rand, k int, thorough bool) *History {
 }
 
 type view struct {
-	svSize map[uint64]uint64
-	bodies map[uint64][]uint64 // body -> live supervoxels (sorted)
-	blist  []uint64
+	svSize  map[uint64]uint64
+	bodies  map[uint64][]uint64 // body -> live supervoxels (sorted)
+	blist   []uint64
+	svBody  map[uint64]uint64
+	inBlock map[[3]int]map[uint64]bool // block -> supervoxels with voxels in it
+}
+
+type svBlock struct {
+	sv  uint64
+	blk [3]int
+}
+
+// shared: (supervoxel, block) pairs where another supervoxel of the same body also has voxels
+// in that block — the situations in which one body's index entry for a block holds several counts.
+func (vw *view) shared() []svBlock {
+	var out []svBlock
+	for blk, svs := range vw.inBlock {
+		for sv := range svs {
+			for other := range svs {
+				if other != sv && vw.svBody[other] == vw.svBody[sv] {
+					out = append(out, svBlock{sv, blk})
+					break
+				}
+			}
+		}
+	}
+	sort.Slice(out, func(i, j int) bool {
+		if out[i].sv != out[j].sv {
+			return out[i].sv < out[j].sv
+		}
+		a, b := out[i].blk, out[j].blk
+		if a[2] != b[2] {
+			return a[2] < b[2]
+		}
+		if a[1] != b[1] {
+			return a[1] < b[1]
+		}
+		return a[0] < b[0]
+	})
+	return out
+}
+
+// anyPairs: every (supervoxel, block) with voxels.
+func (vw *view) anyPairs() []svBlock {
+	var out []svBlock
+	for blk, svs := range vw.inBlock {
+		for sv := range svs {
+			out = append(out, svBlock{sv, blk})
+		}
+	}
+	sort.Slice(out, func(i, j int) bool {
+		if out[i].sv != out[j].sv {
+			return out[i].sv < out[j].sv
+		}
+		a, b := out[i].blk, out[j].blk
+		if a[2] != b[2] {
+			return a[2] < b[2]
+		}
+		if a[1] != b[1] {
+			return a[1] < b[1]
+		}
+		return a[0] < b[0]
+	})
+	return out
 }
 
 func (e *Exec) view(v int) *view {
-	vw := &view{svSize: map[uint64]uint64{}, bodies: map[uint64][]uint64{}}
+	vw := &view{svSize: map[uint64]uint64{}, bodies: map[uint64][]uint64{}, svBody: map[uint64]uint64{}, inBlock: map[[3]int]map[uint64]bool{}}
 	sn := e.lastAt(v)
 	if sn == nil {
 		return vw
 	}
-	for _, l := range sn.SV {
-		if l != 0 {
-			vw.svSize[l]++
+	g := e.h.G
+	n := g.N()
+	for z := 0; z < n[2]; z++ {
+		for y := 0; y < n[1]; y++ {
+			for x := 0; x < n[0]; x++ {
+				l := sn.SV[g.Idx(x, y, z)]
+				if l == 0 {
+					continue
+				}
+				vw.svSize[l]++
+				b := g.BlockOf(x, y, z)
+				if vw.inBlock[b] == nil {
+					vw.inBlock[b] = map[uint64]bool{}
+				}
+				vw.inBlock[b][l] = true
+			}
 		}
 	}
 	for sv := range vw.svSize {
@@ -101,6 +175,7 @@ func (e *Exec) view(v int) *view {
 		if o := sn.SVs[sv]; o != nil {
 			body = o.Map
 		}
+		vw.svBody[sv] = body
 		vw.bodies[body] = append(vw.bodies[body], sv)
 	}
 	for b, svs := range vw.bodies {
@@ -197,6 +272,13 @@ func allBlocks(g Geom) [][3]int {
 
 var adversarial string
 
+// colocated: the next merge must join bodies that meet in one block (agglomeration phase)
+var colocated bool
+
+// forceShape: the next write wipes a supervoxel from a block / the next split takes a
+// supervoxel's whole share of a block (both preferably where a body has several supervoxels)
+var forceShape bool
+
 // erased: labels known to the mapping (mapped to another body) that have no voxel at the moment
 func (e *Exec) erased(v int) []uint64 {
 	sn := e.lastAt(v)
@@ -224,6 +306,29 @@ func (e *Exec) genOp(rng *lib.Rand, v int, kind string, bad bool) (Op, bool) {
 			return Op{}, false
 		}
 		sel := pickSubset(rng, vw.blist, 2, min(4, len(vw.blist)))
+		if colocated || rng.Chance(0.5) {
+			// bodies that have voxels in one common block
+			var blks [][3]int
+			for b := range vw.inBlock {
+				blks = append(blks, b)
+			}
+			sort.Slice(blks, func(i, j int) bool { return g.bidOf(blks[i]) < g.bidOf(blks[j]) })
+			for try := 0; try < 4 && len(blks) > 0; try++ {
+				b := blks[rng.Intn(len(blks))]
+				seen := map[uint64]bool{}
+				var bs []uint64
+				for sv := range vw.inBlock[b] {
+					if body := vw.svBody[sv]; !seen[body] {
+						seen[body] = true
+						bs = append(bs, body)
+					}
+				}
+				if len(bs) >= 2 {
+					sel = pickSubset(rng, sortedU64(bs), 2, min(3, len(bs)))
+					break
+				}
+			}
+		}
 		t := rng.Intn(len(sel))
 		op := Op{K: "merge", V: v, Target: sel[t]}
 		for i, l := range sel {
@@ -297,10 +402,34 @@ func (e *Exec) genOp(rng *lib.Rand, v int, kind string, bad bool) (Op, bool) {
 		}
 		svs = sortedU64(svs)
 		sv := svs[rng.Intn(len(svs))]
+		mode := rng.Intn(10)
+		var blockShare *svBlock
+		if kind == "splitsv" && (mode >= 6 || forceShape) {
+			// the supervoxel's whole share of one block, preferably a block it shares with another
+			// supervoxel of its body
+			cands := vw.shared()
+			if len(cands) == 0 || (rng.Chance(0.25) && !forceShape) {
+				cands = vw.anyPairs()
+			}
+			if len(cands) > 0 {
+				c := cands[rng.Intn(len(cands))]
+				blockShare, sv = &c, c.sv
+			}
+		}
 		rows := e.rows(v, sv)
 		var runs []Run
-		mode := rng.Intn(10)
 		switch {
+		case blockShare != nil:
+			lo, hi := blockShare.blk[0]*g.BS, (blockShare.blk[0]+1)*g.BS
+			for _, r := range rows {
+				if g.BlockOf(r.P[0], r.P[1], r.P[2])[1] != blockShare.blk[1] || r.P[2]/g.BS != blockShare.blk[2] {
+					continue
+				}
+				x0, x1 := max(r.P[0], lo), min(r.P[0]+r.N, hi)
+				if x1 > x0 {
+					runs = append(runs, Run{[3]int{x0, r.P[1], r.P[2]}, x1 - x0})
+				}
+			}
 		case mode == 0 && kind == "splitsv": // whole supervoxel
 			runs = rows
 		case mode == 1 && kind == "splitsv": // nothing
@@ -445,50 +574,39 @@ func (e *Exec) genOp(rng *lib.Rand, v int, kind string, bad bool) (Op, bool) {
 		}
 		live = sortedU64(live)
 		op := Op{K: "write", V: v, B0: b0, NB: nb}
-		if len(live) > 0 && rng.Chance(0.4) {
-			// wipe one supervoxel out of one block (its count there drops to zero), by background or
-			// by another label
-			sv := live[rng.Intn(len(live))]
-			vol := e.curSV(v)
-			n := g.N()
-			mn, mx := [3]int{1 << 30, 1 << 30, 1 << 30}, [3]int{-1, -1, -1}
-			first := true
-			var blk [3]int
-			for z := 0; z < n[2]; z++ {
-				for y := 0; y < n[1]; y++ {
-					for x := 0; x < n[0]; x++ {
-						if vol[g.Idx(x, y, z)] != sv {
-							continue
-						}
-						if first {
-							blk, first = g.BlockOf(x, y, z), false
-						}
-						if g.BlockOf(x, y, z) != blk {
-							continue
-						}
-						p := [3]int{x, y, z}
-						for a := 0; a < 3; a++ {
-							if p[a] < mn[a] {
-								mn[a] = p[a]
-							}
-							if p[a] > mx[a] {
-								mx[a] = p[a]
-							}
-						}
-					}
-				}
+		if len(live) > 0 && (forceShape || rng.Chance(0.45)) {
+			// wipe one supervoxel out of one block exactly (its count there drops to zero, everything
+			// else in the block stays), by background or by another label; preferably a block the
+			// supervoxel shares with another supervoxel of its body
+			cands := vw.shared()
+			if len(cands) == 0 || (rng.Chance(0.3) && !forceShape) {
+				cands = vw.anyPairs()
 			}
-			if !first {
+			if len(cands) > 0 {
+				c := cands[rng.Intn(len(cands))]
 				var l uint64
-				if rng.Bool() && len(live) > 1 {
-					l = live[rng.Intn(len(live))]
-					if l == sv {
+				if rng.Chance(0.4) && len(live) > 1 {
+					if l = live[rng.Intn(len(live))]; l == c.sv {
 						l = 0
 					}
 				}
-				op.B0, op.NB = blk, [3]int{1, 1, 1}
-				op.Boxes = []Box{{mn, [3]int{mx[0] - mn[0] + 1, mx[1] - mn[1] + 1, mx[2] - mn[2] + 1}, l}}
-				return op, true
+				vol := e.curSV(v)
+				wiped := append([]uint64(nil), vol...)
+				for z := c.blk[2] * g.BS; z < (c.blk[2]+1)*g.BS; z++ {
+					for y := c.blk[1] * g.BS; y < (c.blk[1]+1)*g.BS; y++ {
+						for x := c.blk[0] * g.BS; x < (c.blk[0]+1)*g.BS; x++ {
+							if i := g.Idx(x, y, z); vol[i] == c.sv {
+								wiped[i] = l
+							}
+						}
+					}
+				}
+				op.B0, op.NB = c.blk, [3]int{1, 1, 1}
+				op.Boxes = g.DiffBoxes(vol, wiped)
+				if len(op.Boxes) > 0 && len(op.Boxes) <= 40 {
+					return op, true
+				}
+				op.Boxes = nil
 			}
 		}
 		for i, k := 0, 1+rng.Intn(3); i < k; i++ {
@@ -561,10 +679,54 @@ func driveGenerated(e *Exec, rng *lib.Rand) {
 	nOps := 9 + rng.Intn(4)
 	cur := 0
 	e.step(mkIngest(0, first))
+	// agglomeration first: bodies of several supervoxels that meet in one block exist before the
+	// writes and splits
+	if rng.Chance(0.95) {
+		for k, n := 0, 1+rng.Intn(2); k < n; k++ {
+			colocated = true
+			if op, ok := e.genOp(rng, cur, "merge", false); ok {
+				e.step(op)
+			}
+			colocated = false
+		}
+	}
+	forceMapping := false
+	// shapes every history should see at some point after the agglomeration
+	var todo []string
+	if rng.Chance(0.9) {
+		todo = append(todo, "write")
+	}
+	if rng.Chance(0.9) {
+		todo = append(todo, "splitsv")
+	}
+	if len(todo) == 2 && rng.Bool() {
+		todo[0], todo[1] = todo[1], todo[0]
+	}
 	for i := 0; i < nOps; i++ {
+		if len(todo) > 0 && !forceMapping && rng.Chance(0.4) {
+			forceShape = true
+			op, ok := e.genOp(rng, cur, todo[0], false)
+			forceShape = false
+			todo = todo[1:]
+			if ok {
+				e.step(op)
+				continue
+			}
+		}
 		// version events
-		if rng.Chance(0.22) && len(e.uuids) < 4 {
+		if rng.Chance(0.25) && len(e.uuids) < 4 {
 			e.step(Op{K: "commit", V: cur})
+			if rng.Chance(0.5) {
+				// a chain cur -> A -> B where A is committed at once and nothing looks at A or B
+				// before the first request at B
+				e.step(Op{K: "newversion", V: cur, Child: len(e.uuids), Quiet: true})
+				a := len(e.uuids) - 1
+				e.step(Op{K: "commit", V: a, Quiet: true})
+				e.step(Op{K: "newversion", V: a, Child: len(e.uuids), Quiet: true})
+				cur = len(e.uuids) - 1
+				forceMapping = true
+				continue
+			}
 			if rng.Chance(0.5) {
 				e.step(Op{K: "newversion", V: cur, Child: len(e.uuids)})
 				cur = len(e.uuids) - 1
@@ -592,8 +754,23 @@ func driveGenerated(e *Exec, rng *lib.Rand) {
 				open = append(open, v)
 			}
 		}
-		if len(open) > 1 && rng.Chance(0.3) {
+		if len(open) > 1 && rng.Chance(0.3) && !forceMapping {
 			cur = open[rng.Intn(len(open))]
+		}
+		if forceMapping {
+			// the first request at the new leaf changes the mapping
+			forceMapping = false
+			done := false
+			for _, kind := range []string{[]string{"merge", "cleave", "renumber"}[rng.Intn(3)], "merge", "renumber"} {
+				if op, ok := e.genOp(rng, cur, kind, false); ok {
+					e.step(op)
+					done = true
+					break
+				}
+			}
+			if done {
+				continue
+			}
 		}
 		if len(later) > 0 && rng.Chance(0.3) {
 			// contract: only blocks not yet written at this version, only live or unused labels
